@@ -73,6 +73,10 @@ def fixed_cases(tier):
                          "variants": [{"ident": "V%d" % i, "disc": ("-7" if i == 0 else "100000" if i == 60000 else None)} for i in range(65534)]},
                 "cfg": S.simple_config(["into", "MIN", "MAX"]), "seed": 6, "accept_only": True})
     if tier == "thorough":
+        # more than 32768 variants on a 16-bit signed repr: table indexes beyond i16::MAX
+        out.append({"spec": {"repr": "i16", "vis": "pub", "ident": "E", "enum_attrs": [],
+                             "variants": [{"ident": "V%d" % i, "disc": ("-16500" if i == 0 else None)} for i in range(33000)]},
+                    "cfg": S.simple_config(["into", "try_from", "iter", "range", "as_str", "next", "next_back"], {"as_str": "table", "iter": "table"}), "seed": 7})
         out.append({"spec": {"repr": "u16", "vis": "pub", "ident": "E", "enum_attrs": [],
                              "variants": [{"ident": "V%d" % i, "disc": None} for i in range(65534)]},
                     "cfg": S.simple_config(["into", "try_from", "iter"]), "seed": 3})
